@@ -27,7 +27,10 @@ func verifQuotedNode() any {
 	}
 	return types.ObjectMap{"@id": "http://x/household", "@type": []any{"http://example.org/Household"},
 		"http://example.org/a": []any{lit("1"), lit("2")}, "http://example.org/b": []any{lit("3"), lit("4")},
-		"http://example.org/c": types.ObjectMap{"@id": "http://x/other"}}
+		"http://example.org/c": types.ObjectMap{"@id": "http://x/other"},
+		// properties of two vocabularies with the same local name, single-valued and multi-valued
+		"http://example.org/v#size": lit("5"), "http://example.org/w#size": lit("6"), "http://example.org/w/size": lit("7"),
+		"http://example.org/v#list": []any{lit("8")}, "http://example.org/w#list": []any{lit("9")}}
 }
 
 func verifLiteral(typed bool, val string) any {
